@@ -706,7 +706,10 @@ def decoder_interleaving_case(value):
     def new_decoder(j):
         sop = specs[j]['fields'].get('AffectedSOPClassUID') or specs[j]['fields'].get('RequestedSOPClassUID') or '1.2.3'
         ctxs = {1 + 2 * j: asceprovider.PContextDef(1 + 2 * j, uid.UID(sop), uid.UID('1.2.840.10008.1.2'))}
-        return fsm.DIMSEDecoder(ctxs, frozenset(), None)
+        try:
+            return fsm.DIMSEDecoder(ctxs, frozenset(), None)
+        except TypeError as exc:
+            raise HarnessError('fsm.DIMSEDecoder cannot be constructed as anchored: %r' % (exc,))
 
     def result(dec):
         if dec.receiving:
